@@ -107,6 +107,9 @@ func c13(r *Report) propMeta {
 	r.Rule("C13.R7", "store-key agreement: every point read/delete addresses a written key family")
 	r.StoreKeyAgreement("store-keys", "oracle", 14, nil)
 
+	// quoted route fee = charged fee (C08)
+	r.Include("C08", "C08.R5")
+
 	return propMeta{
 		Decided: []string{
 			"R1 feeCollector.Collect: every denom of the running total is compared with the limit before the single SendCoins(payer -> treasury, this fee); failing edge returns an error and reaches no transfer",
